@@ -55,6 +55,12 @@ Proof.
   rewrite andb_true_r in Hb. rewrite Hb, xorb_false_r. reflexivity.
 Qed.
 
+Lemma zlist_eqb_eq a b : zlist_eqb a b = true -> a = b.
+Proof.
+  unfold zlist_eqb. revert b. induction a as [|x a IH]; intros [|y b]; cbn; try discriminate; auto.
+  intros H. apply andb_true_iff in H as [Hx Hr]. apply Z.eqb_eq in Hx. subst. f_equal. auto.
+Qed.
+
 (* ---------- Matches ---------- *)
 Section Matching.
 Variable u : uni.
@@ -143,6 +149,23 @@ Proof.
     rewrite land1_shift, negb_involutive in H. rewrite H, Hl, Ht. cbn [andb]. apply orb_true_r.
 Qed.
 
+Lemma shift_forgiven_only_prop k r mods :
+  matches u k r mods = true -> Z.testbit mods 0 <> Z.testbit (k_mods k) 0 ->
+  (k_shifted k = r /\ Z.testbit mods 0 = false)
+  \/ (u_letter u r = false /\ u_graphic u r = true /\ (k_code k = r \/ k_shifted k = r))
+  \/ (Z.testbit mods 0 = true /\ u_lower u r = true /\ k_text k = [rune_fix (u_toupper u r)]).
+Proof.
+  intros Hm Hs. pose proof (shift_forgiven_only k r mods Hm Hs) as H.
+  unfold shift_forgiven, shift_of in H.
+  apply orb_true_iff in H as [H|H]; [apply orb_true_iff in H as [H|H]|].
+  - left. apply andb_true_iff in H as [H1 H2]. apply Z.eqb_eq in H1. apply negb_true_iff in H2. auto.
+  - right; left. apply andb_true_iff in H as [H H3]. apply andb_true_iff in H as [H1 H2].
+    apply negb_true_iff in H1. split; [exact H1|]. split; [exact H2|].
+    apply orb_true_iff in H3 as [H3|H3]; apply Z.eqb_eq in H3; auto.
+  - right; right. apply andb_true_iff in H as [H H3]. apply andb_true_iff in H as [H1 H2].
+    apply zlist_eqb_eq in H3. auto.
+Qed.
+
 Lemma self_match k l1 l2 :
   Z.ldiff l1 192 = 0 -> Z.ldiff l2 192 = 0 ->
   matches u (with_mods k (Z.lxor (k_mods k) l1)) (k_code k) (Z.lxor (k_mods k) l2) = true.
@@ -216,6 +239,17 @@ Qed.
 Lemma ss3_table_exact : ss3Keys = ss3_spec.
 Proof. reflexivity. Qed.
 
+(* the built-in ASCII oracle satisfies the hypotheses of the decode theorems *)
+Lemma ascii_uni_hyps :
+  u_upper ascii_uni 127 = false /\ (forall r, u_upper ascii_uni r = true -> u_tolower ascii_uni r <> 127).
+Proof.
+  split; [reflexivity|]. intros r. unfold ascii_uni, uni_of. cbn [u_upper u_tolower]. unfold info_of.
+  destruct (in_range r 0 127) eqn:Ea; cbn [find]; [|cbn; discriminate].
+  unfold ascii_info. destruct (in_range r 65 90) eqn:Eu.
+  - intros _. unfold in_range in Eu. lia.
+  - destruct (in_range r 97 122); destruct (in_range r 32 126); cbn; discriminate.
+Qed.
+
 (* ---------- decodeKey ---------- *)
 Lemma i32_small v : small v = true -> i32 v = v.
 Proof.
@@ -233,6 +267,25 @@ Qed.
 
 Lemma clamp_max v : (if v <? 0 then 0 else v) = Z.max 0 v.
 Proof. destruct (v <? 0) eqn:E; lia. Qed.
+
+Lemma shape_ok_inv x : shape_ok x = true ->
+  small (sh_n x) = true /\ small (sh_s x) = true /\ small (sh_b x) = true /\ small (sh_m x) = true /\ small (sh_e x) = true /\
+  (sh_n0 x = 0 \/ sh_n0 x = 1 \/ sh_n0 x = 2) /\ (sh_n1 x = 0 \/ sh_n1 x = 1 \/ sh_n1 x = 2) /\
+  (forall tx, sh_tx x = Some tx -> forallb small tx = true) /\
+  (forall t tx, sh_tx x = Some (t :: tx) -> (sh_n x =? 27) && (sh_fin x =? 126) = false) /\
+  ((sh_n x =? 1) && (sh_fin x =? 90) = true -> (sh_n1 x = 0 -> sh_tx x = None) /\ (sh_n1 x <> 0 -> 1 <= sh_m x)).
+Proof.
+  unfold shape_ok. intros H.
+  repeat match type of H with (_ && _ = true) => let H' := fresh "H" in apply andb_true_iff in H as [H H'] end.
+  do 5 (split; [assumption|]).
+  split; [unfold in_range in H4; lia|]. split; [unfold in_range in H3; lia|].
+  split; [intros tx E; rewrite E in H2; exact H2|].
+  split; [intros t tx E; rewrite E in H1; apply negb_true_iff in H1; rewrite andb_true_r in H1; exact H1|].
+  intros Hbt. rewrite Hbt in H0. cbn [andb] in H0. apply negb_true_iff in H0.
+  split.
+  - intros E0. rewrite E0 in H0. cbn in H0. destruct (sh_tx x); [discriminate|reflexivity].
+  - intros E0. apply Z.eqb_neq in E0. rewrite E0 in H0. unfold small in H6. lia.
+Qed.
 
 Section Decode.
 Variable u : uni.
@@ -291,6 +344,101 @@ Proof.
   rewrite (i32_small k Hk). rewrite Z.lor_0_l.
   assert (Hs : -1 <= m - 1 < 2147483648) by (unfold small in Hm; lia).
   rewrite (i64_small _ Hs), clamp_max. reflexivity.
+Qed.
+
+Lemma map_fix_small l : forallb small l = true -> map (fun p => rune_fix (i32 p)) l = map rune_fix l.
+Proof. intros Hl. apply map_ext_in. intros a Ha. rewrite forallb_forall in Hl. now rewrite i32_small by auto. Qed.
+
+Lemma special_27_tilde n : special_code n 126 = 27 -> n = 27.
+Proof.
+  unfold special_code. destruct (lookup2_in specialsKeys n 126) as [En|[k [Hin En]]]; rewrite En; [auto|].
+  intros ->. exfalso. revert Hin. clear. intros Hin. vm_compute in Hin.
+  repeat (destruct Hin as [Hin|Hin]; [discriminate|]). contradiction.
+Qed.
+
+Lemma p0_small k n alts fin : small n = true ->
+  csi_p0 k (n :: alts) fin =
+  let k1 := if (n =? 1) && (fin =? 90)
+            then mkKey (k_text k) KeyTab (k_shifted k) (k_base k) ModShift (k_event k)
+            else mkKey (k_text k) (special_code n fin) (k_shifted k) (k_base k) (k_mods k) (k_event k) in
+  let k2 := match alts with s :: _ => mkKey (k_text k1) (k_code k1) (i32 s) (k_base k1) (k_mods k1) (k_event k1) | [] => k1 end in
+  match alts with _ :: b :: _ => mkKey (k_text k2) (k_code k2) (k_shifted k2) (i32 b) (k_mods k2) (k_event k2) | _ => k2 end.
+Proof.
+  intros Hn. unfold csi_p0. rewrite (i32_small n Hn). destruct alts as [|s [|b t]]; reflexivity.
+Qed.
+
+Lemma p1_small k m rest : small m = true ->
+  csi_p1 k (m :: rest) =
+  let k1 := mkKey (k_text k) (k_code k) (k_shifted k) (k_base k) (Z.max 0 (Z.lor (k_mods k) (m - 1))) (k_event k) in
+  match rest with
+  | e :: _ => mkKey (k_text k1) (k_code k1) (k_shifted k1) (k_base k1) (k_mods k1) (Z.max 0 (i64 (e - 1)))
+  | [] => k1
+  end.
+Proof.
+  intros Hm. unfold csi_p1. rewrite i64_small by (unfold small in Hm; lia). rewrite clamp_max.
+  destruct rest; cbn [nth_error]; [reflexivity|]. rewrite clamp_max. reflexivity.
+Qed.
+
+Lemma p2_text k tx fin : forallb small tx = true ->
+  (forall t tx', tx = t :: tx' -> (k_code k =? 27) && (fin =? 126) = false) ->
+  csi_p2 k tx fin = mkKey (k_text k ++ map rune_fix tx) (k_code k) (k_shifted k) (k_base k) (k_mods k) (k_event k).
+Proof.
+  intros Hs H. unfold csi_p2. destruct tx as [|t tx'].
+  - cbn [map]. rewrite app_nil_r. destruct k; reflexivity.
+  - rewrite (H t tx' eq_refl). rewrite map_fix_small by exact Hs. reflexivity.
+Qed.
+
+Lemma decode_shape_roundtrip x :
+  shape_ok x = true -> decode_key u (shape_seq x) = shape_spec u x.
+Proof.
+  intros Hok. apply shape_ok_inv in Hok.
+  destruct x as [n s b n0 m e n1 tx fin]. cbn [sh_n sh_s sh_b sh_n0 sh_m sh_e sh_n1 sh_tx sh_fin] in Hok.
+  destruct Hok as (Hn & Hs & Hb & Hm & He & C0 & C1 & Htx & H27 & Hbt).
+  unfold decode_key, shape_seq, shape_spec. rewrite finish_spec. f_equal.
+  cbn [sh_n sh_s sh_b sh_n0 sh_m sh_e sh_n1 sh_tx sh_fin decode_pre].
+  unfold shape_params. cbn [sh_n sh_s sh_b sh_n0 sh_m sh_e sh_n1 sh_tx sh_fin].
+  assert (Hms : -1 <= m - 1 < 2147483648) by (unfold small in Hm; lia).
+  assert (Hes : -1 <= e - 1 < 2147483648) by (unfold small in He; lia).
+  assert (H0s : small 0 = true) by reflexivity.
+  rewrite <- special_code_exact.
+  destruct C0 as [-> | [-> | ->]]; destruct C1 as [-> | [-> | ->]]; destruct tx as [tx|];
+    cbn [Z.eqb Pos.eqb Z.leb Z.compare Pos.compare Pos.compare_cont];
+    unfold decode_csi; cbn [nth_error];
+    rewrite (p0_small _ n _ fin Hn); rewrite ?(p1_small _ m _ Hm), ?(p1_small _ 0 _ H0s);
+    rewrite ?(i32_small s Hs), ?(i32_small b Hb), ?(i64_small _ Hes);
+    cbv zeta; cbn [k_mods k_text k_code k_shifted k_base k_event key0].
+  all: destruct ((n =? 1) && (fin =? 90)) eqn:Ebt; cbn [k_mods k_text k_code k_shifted k_base k_event key0].
+  all: try (destruct (Hbt eq_refl) as [Hb0 Hb1]).
+  all: try (specialize (Hb0 eq_refl); discriminate).
+  all: try (assert (Hm1 : 1 <= m) by (apply Hb1; lia)).
+  all: try rewrite p2_text;
+       cbn [k_mods k_text k_code k_shifted k_base k_event app];
+       try (apply Htx; reflexivity).
+  all: change ModShift with 1; change KeyTab with 9; rewrite ?Z.lor_0_l; change (Z.lor 1 0) with 1.
+  all: try (intros t tx' E; subst tx; try reflexivity;
+            destruct ((special_code n fin =? 27) && (fin =? 126)) eqn:E27; [|reflexivity];
+            apply andb_true_iff in E27 as [Ec Ef]; apply Z.eqb_eq in Ec, Ef; subst fin;
+            apply special_27_tilde in Ec; subst n; specialize (H27 _ _ eq_refl); discriminate).
+  all: try (assert (Hl : 0 <= Z.lor 1 (m - 1)) by (apply Z.lor_nonneg; lia);
+            rewrite (Z.max_r 0 (m - 1)) by lia; rewrite (Z.max_r 0 (Z.lor 1 (m - 1))) by lia).
+  all: try reflexivity.
+Qed.
+
+(* every encoding of the decode stream decodes to what it specifies *)
+Lemma enc_roundtrip e k :
+  u_upper u 127 = false -> (forall r, u_upper u r = true -> u_tolower u r <> 127) ->
+  enc_spec u e = Some k -> decode_key u (enc_seq e) = k.
+Proof.
+  intros H127 Hlow. destruct e as [g|b|c|c|x|m kk]; cbn [enc_spec enc_seq].
+  - destruct g as [|r rest]; [discriminate|]. intros [= <-]. apply decode_print_roundtrip; auto.
+  - destruct (in_range b 0 31) eqn:Eb; [|discriminate]. intros [= <-].
+    apply decode_c0_roundtrip. unfold in_range in Eb. lia.
+  - intros [= <-]. reflexivity.
+  - destruct (lookup1 ss3_spec c) as [kk|] eqn:El; [|discriminate]. intros [= <-].
+    now apply decode_ss3_roundtrip.
+  - destruct (shape_ok x) eqn:Eo; [|discriminate]. intros [= <-]. now apply decode_shape_roundtrip.
+  - destruct (small m && small kk) eqn:Es; [|discriminate]. intros [= <-].
+    apply andb_true_iff in Es as [Hm Hk]. now apply decode_other_keys_roundtrip.
 Qed.
 
 End Decode.
